@@ -4,6 +4,7 @@ package NoKV
 
 import (
 	"github.com/feichai0017/NoKV/lsm"
+	"github.com/feichai0017/NoKV/wal"
 )
 
 // VerifLSM exposes the LSM tree to the verification harness.
@@ -28,3 +29,7 @@ func (db *DB) VerifVlogFiles() (files map[uint32][]uint32, active map[uint32]uin
 	}
 	return files, active
 }
+
+// VerifWALWatchdog returns the DB's own WAL watchdog (nil when disabled) so that the
+// harness can trigger passes deterministically with RunOnce.
+func (db *DB) VerifWALWatchdog() *wal.Watchdog { return db.walWatchdog }
